@@ -188,7 +188,7 @@ func (c *child) workFn(mod string, w *Work) func(ctx context.Context) error {
 		} else {
 			hold(w.HoldUS)
 		}
-		if w.Panic != "" && n == 1 {
+		if w.Panic != "" && int(n) <= w.PanickingRuns() {
 			PanicNow(w.Panic)
 		}
 		if w.Fail && n == 1 {
@@ -528,7 +528,7 @@ func RunChild(sc *Scenario) *Result {
 			for {
 				pending := false
 				for id, w := range c.workByID {
-					if w.Kind == "service" && w.Panic != "" && w.Mode == "finish" && atomic.LoadInt32(c.beganN[id]) == 1 {
+					if w.Kind == "service" && w.Panic != "" && w.Mode == "finish" && int(atomic.LoadInt32(c.beganN[id])) <= w.PanickingRuns() {
 						pending = true
 					}
 				}
